@@ -13,9 +13,10 @@ import itertools
 
 import z3
 
-from .frontend import Unsupported
+from .frontend import LIST_MUTATORS, Unsupported
 
 BW = 4  # bit width of small ints / node ids (N + W + 2 < 16)
+LL = 6  # capacity of a modelled list of nodes (longer: bad bit nodelist_misuse = outside the model)
 
 
 def bv(x):
@@ -116,6 +117,9 @@ class VNone(Val):
 
 
 K_EXC, K_BASE, K_NODEERR, K_KBI = 0, 1, 2, 3
+ORIGIN_THREAD_REFUSED = 14  # VExc.origin of the RuntimeError raised by a refused Thread.start()
+ORIGIN_QUEUE_EMPTY = 15  # VExc.origin of the queue.Empty raised by a timed / non-blocking get (user exceptions: origin = a node, or N)
+MAX_TIMEOUTS = 1  # how often a timed queue.get may time out in one run, all workers together (stated bound; keeps every schedule finite)
 
 
 class VExc(Val):
@@ -169,6 +173,34 @@ class VTuple(Val):
         self.items = items
 
 
+class VEmptyList(Val):
+    """`[]` / `()` whose element type is not known yet: becomes the worker list (first append of a thread) or a node list."""
+
+
+class VNodeList(Val):
+    """A list / tuple of graph nodes, or None: a bounded sequence (length n <= LL, elements e0..e{LL-1}) with Python's semantics --
+    duplicates allowed, iteration by position over the LIVE object (an iterator refers to the variable holding the list, so
+    elements appended / cleared by another thread during the loop are seen, as in CPython)."""
+
+    fields = ("none", "n") + tuple(f"e{i}" for i in range(LL))
+
+    def __init__(self, none, n=0, elems=None):
+        self.none = none if not isinstance(none, bool) else z3.BoolVal(none)
+        self.n = n if not isinstance(n, int) else bv(n)
+        elems = list(elems) if elems is not None else []
+        for i in range(LL):
+            setattr(self, f"e{i}", elems[i] if i < len(elems) else bv(0))
+
+    def elems(self):
+        return [getattr(self, f"e{i}") for i in range(LL)]
+
+    def appended(self, node, cond=True):
+        """-> (list with `node` appended if cond, overflow flag)"""
+        cond = z3.BoolVal(cond) if isinstance(cond, bool) else cond
+        es = [ite(AND(cond, self.n == i), node, e) for i, e in enumerate(self.elems())]
+        return VNodeList(self.none, ite(cond, self.n + 1, self.n), es), AND(cond, self.n == LL)
+
+
 class VSlot(Val):
     """bound_call_lookup[node] : reference to the Slot of `node` (C16)."""
 
@@ -189,6 +221,10 @@ def coerce(a, b):
     """Make two values mergeable (None vs optional types)."""
     if type(a) is type(b):
         return a, b
+    if isinstance(a, VEmptyList) and isinstance(b, (VNodeList, VRef)):
+        return (VNodeList(False, 0) if isinstance(b, VNodeList) else b), b
+    if isinstance(b, VEmptyList) and isinstance(a, (VNodeList, VRef)):
+        return a, (VNodeList(False, 0) if isinstance(a, VNodeList) else a)
     if isinstance(a, VNone):
         return default_like(b), b
     if isinstance(b, VNone):
@@ -203,7 +239,9 @@ def default_like(v):
         return VOptInt(z3.BoolVal(True), bv(0))
     if isinstance(v, VBoundCall):
         return VBoundCall(v.node, z3.BoolVal(False))
-    if isinstance(v, (VRef, VTuple, VNone)):
+    if isinstance(v, VNodeList):
+        return VNodeList(True, 0)
+    if isinstance(v, (VRef, VTuple, VNone, VEmptyList)):
         return v
     return v.rebuild([z3.BitVecVal(0, t.size()) if z3.is_bv(t) else z3.BoolVal(False) for t in v.terms()])
 
@@ -216,7 +254,7 @@ def mux(c, a, b):
         if a.key() != b.key():
             raise Unsupported(f"merge of different objects {a.key()} / {b.key()}")
         return a
-    if isinstance(a, (VNone, VTuple)):
+    if isinstance(a, (VNone, VTuple, VEmptyList)):
         return a
     return a.rebuild([ite(c, x, y) for x, y in zip(a.terms(), b.terms())])
 
@@ -272,6 +310,7 @@ class Options:
         self.base_kinds = True  # fn may raise BaseException-only
         self.fuse = True  # lock-set based atomic fusing (False: every shared access is its own step)
         self.all_ok = False  # restrict the instance to runs in which no call fails
+        self.start_may_fail = False  # Thread.start() may raise RuntimeError ("can't start new thread"), at most once per run
         self.int_where = "all"  # interrupt positions: all | not_startup | only_startup (startup = a thread is started but not yet recorded)
         self.__dict__.update(kw)
 
@@ -358,6 +397,8 @@ class Encoder:
                 self.shared_mut.add(("var", q))
             if q in fe.map_stores:
                 self.shared_mut.add(("map", q))
+            if q in fe.list_mut_vars:
+                self.shared_mut.add(("var", q))  # a list object shared by the threads and mutated through append / extend / clear
         # lock sets over worker code
         acc = {}
         for pname in ("worker", "main"):
@@ -378,6 +419,8 @@ class Encoder:
         # main instructions that can execute while a thread may be alive: reachable from a Thread.start
         main = self.progs["main"]
         starts = [l for l, i in main.instrs.items() if i.op == "env" and i.a[0] == "method" and i.a[2] == "start"]
+        # ... or while the coordinator itself executes a call of the plan (code that runs fn on the calling thread)
+        starts += [l for l, i in main.instrs.items() if i.op == "fnstart"]
         seen, todo = set(), list(starts)
         while todo:
             l = todo.pop()
@@ -396,6 +439,10 @@ class Encoder:
             return ("var", ins.dst)
         if ins.op in ("loadmap", "storemap"):
             return ("map", ins.a[0])
+        if ins.op == "env" and ins.a[0] == "method" and ins.a[1][0] == "objvar" and ins.a[2] in LIST_MUTATORS:
+            return ("var", ins.a[1][1])
+        if ins.op == "iternext" and ins.label in self.fe.iter_src:
+            return ("var", self.fe.iter_src[ins.label])  # one step of a loop over a (possibly shared) list: reads the list
         return None
 
     def mover(self, pname, ins):
@@ -403,7 +450,7 @@ class Encoder:
         op = ins.op
         if pname == "main" and ins.label not in self.main_concurrent and not (op == "env" and ins.a[0] == "method" and ins.a[2] == "start"):
             return "B", False
-        if op in ("load", "store", "loadmap", "storemap"):
+        if op in ("load", "store", "loadmap", "storemap", "iternext"):
             loc = self._location(ins)
             if loc not in self.shared_mut:
                 return "B", False
@@ -426,12 +473,18 @@ class Encoder:
                 return "L", False
             if a[0] == "method":
                 obj, meth = a[1], a[2]
+                loc = self._location(ins)
+                if loc is not None and loc in self.shared_mut:
+                    lk = self.protected.get(loc)
+                    return ("B", False) if (lk is not None and lk in ins.held) else ("N", False)
                 if meth == "acquire":
                     return "R", True
                 if meth == "release":
                     return "L", False
-                if meth in ("get", "join"):
+                if meth in ("get", "join", "get_nowait"):
                     return "N", True
+                if meth == "is_alive":
+                    return "N", False
                 if meth in ("put", "task_done", "start"):
                     return "N", False
                 if meth.startswith("increment_"):
@@ -494,6 +547,11 @@ class Encoder:
             first = not items
             if not first:
                 stop = blocking or (phase == 1 and cls in ("R", "N")) or (phase == 0 and cls == "R")
+                seen_at = [k for k, (i, _) in enumerate(items) if i.label == lab]
+                if seen_at and all(self.mover(pname, i)[0] == "B" for i, _ in items[seen_at[-1]:]):
+                    # a loop iteration without any visible operation (e.g. collecting successors into a local list) would unroll
+                    # for ever: cut the step at the loop head.  More, shorter steps only add interleavings -- sound, it needs a larger K
+                    stop = True
                 if self.opts.interrupt and pname == "main" and lab in self.main_concurrent and (cls != "B" or ins.op == "env"):
                     # an asynchronous exception can land between any two instructions of the coordinator: besides every shared-state
                     # operation, every call-like operation on its own bookkeeping (e.g. workers.append) starts a step, so that the
@@ -528,7 +586,20 @@ class Encoder:
 
     def _may_raise(self, ins):
         a = ins.a
+        if a[0] == "method" and self._timed_get(a):
+            return True
+        if a[0] == "method" and a[2] == "start" and self.opts.start_may_fail:
+            return True
         return a[0] == "call" and a[1] == "assert_acyclic" and self.opts.cyclic
+
+    @staticmethod
+    def _timed_get(a):
+        """queue.get(timeout=...) / get(block=False) / get(False) / get_nowait(): may raise queue.Empty instead of blocking."""
+        if a[0] != "method":
+            return False
+        if a[2] == "get_nowait":
+            return True
+        return a[2] == "get" and ("timeout" in a[4] or "block" in a[4] or len(a[3]) >= 1)
 
     # ------------------------------------------------------------------ initial state
     def init_state(self):
@@ -537,6 +608,8 @@ class Encoder:
         sc = s.sc
         sc["q"] = [bv(0)] * N
         sc["qdone"] = bv(0)
+        sc["timeouts"] = bv(0)
+        sc["start_failed"] = z3.BoolVal(False)
         sc["unf"] = bv(0)
         sc["queue_made"] = z3.BoolVal(False)
         sc["lock"] = {}
@@ -655,7 +728,7 @@ class Encoder:
             elif op == "jump":
                 pass
             elif op == "iter":
-                v = self.make_iter(s, tid, ev(ins.a))
+                v = self.make_iter(s, tid, ev(ins.a), ref=(ins.a[2] if len(ins.a) > 2 else ins.a[1]))
                 loc[ins.dst] = v
                 self._set(s, self._tmpkey(tid, ins.dst), v)
             elif op == "iternext":
@@ -709,6 +782,10 @@ class Encoder:
             d = self.decl.get("w0/" + key.split("/", 1)[1])
         if d is not None and isinstance(v, VNone) and not isinstance(d, VNone):
             return default_like(d)
+        if isinstance(v, VEmptyList) and isinstance(d, VNodeList):
+            return VNodeList(False, 0)
+        if isinstance(v, VEmptyList) and isinstance(d, VRef) and d.kind == "threadlist":
+            return d
         return v
 
     def _tmpkey(self, tid, t):
@@ -727,6 +804,8 @@ class Encoder:
 
     track_reads = None
     written = frozenset()
+    saw_nodelist = False
+    emptylist_final = True  # False during the first typing phase: operations that need the element type of a VEmptyList wait
 
     def _set(self, s, key, v):
         if self.track_reads is not None:
@@ -797,7 +876,7 @@ class Encoder:
         if k == "tuple":
             return VTuple([self.eval(x, s, tid, rd) for x in t[1:]])
         if k == "emptylist":
-            return VRef("threadlist", "workers")
+            return VEmptyList()
         raise Unsupported(f"expression form {k}")
 
     def truth(self, v):
@@ -813,6 +892,10 @@ class Encoder:
             return AND(NOT(v.none), v.v != 0)
         if isinstance(v, VRef):
             return z3.BoolVal(True)
+        if isinstance(v, VEmptyList):
+            return z3.BoolVal(False)
+        if isinstance(v, VNodeList):
+            return AND(NOT(v.none), v.n != 0)
         raise Unsupported(f"truth value of {type(v).__name__}")
 
     def compare(self, op, a, b):
@@ -837,6 +920,8 @@ class Encoder:
                 return a.none
             if isinstance(a, VBoundCall):
                 return NOT(a.alive)
+            if isinstance(a, VNodeList):
+                return a.none
             return z3.BoolVal(False)
         if isinstance(a, VNone):
             return self.identical(b, a)
@@ -873,6 +958,10 @@ class Encoder:
             return e.kind == K_NODEERR
         if cls == "KeyboardInterrupt":
             return e.kind == K_KBI
+        if cls == "Empty":
+            return AND(e.kind == K_EXC, e.origin == ORIGIN_QUEUE_EMPTY)
+        if cls == "RuntimeError":
+            return AND(e.kind == K_EXC, e.origin == ORIGIN_THREAD_REFUSED)
         # any other class name: the exception kinds of the model are "some Exception" / "some BaseException that is not an
         # Exception" raised by arbitrary user code -- it need not be an instance of a specific named subclass
         return z3.BoolVal(False)
@@ -902,6 +991,8 @@ class Encoder:
             return VRef("tb", "tb")
         if isinstance(o, VRef) and o.kind == "tb":
             return o
+        if isinstance(o, VRef) and o.kind == "queue" and attr == "unfinished_tasks":
+            return VInt(s.sc["unf"])
         raise Unsupported(f"attribute .{attr} of {type(o).__name__}")
 
     def store_attr(self, s, tid, o, attr, val, rd):
@@ -927,11 +1018,18 @@ class Encoder:
         alive = z3.BoolVal(False) if isinstance(val, VNone) else (val.alive if isinstance(val, VBoundCall) else z3.BoolVal(True))
         s.sc["g_alive"] = upd(s.sc["g_alive"], slot.node, alive)
 
-    def make_iter(self, s, tid, src):
+    def make_iter(self, s, tid, src, ref=None):
+        """ref: name of the variable / tmp the iterated object was taken from (list iterators stay attached to it)"""
         if isinstance(src, VIter):
             return src
         if isinstance(src, VRef) and src.kind == "threadlist":
             return VIter("threads", bv(0), bv(0))
+        if isinstance(src, (VNodeList, VEmptyList)):
+            if isinstance(src, VEmptyList) and not self.emptylist_final:
+                raise NeedType("element type of an empty list")
+            if isinstance(src, VNodeList):
+                s.bad["nodelist_misuse"] = OR(s.bad["nodelist_misuse"], src.none)  # iterating None raises TypeError: outside the model
+            return VIter("list", bv(0), bv(0), limit=ref)
         raise Unsupported(f"iteration over {type(src).__name__}")
 
     def iter_next(self, s, tid, it):
@@ -949,6 +1047,14 @@ class Encoder:
             for j in reversed(range(N)):
                 nxt = ite(cand[j], bv(j), nxt)
             return has, VNode(nxt), VIter("succ", it.node, nxt + 1)
+        if it.kind == "list":
+            cur = self._read(s, tid, it.limit)
+            if isinstance(cur, VEmptyList) or isinstance(cur, VNone):
+                return z3.BoolVal(False), VNode(bv(0)), it
+            if not isinstance(cur, VNodeList):
+                raise Unsupported(f"list iterator over {type(cur).__name__}")
+            has = AND(NOT(cur.none), z3.ULT(it.cursor, cur.n))
+            return has, VNode(sel(cur.elems(), it.cursor)), VIter("list", it.node, it.cursor + 1, limit=it.limit)
         raise Unsupported(f"iterator {it.kind}")
 
     # ------------------------------------------------------------------ environment operations
@@ -1015,6 +1121,11 @@ class Encoder:
                     return VInt(sc["wcount"])
                 if isinstance(x, VRef) and x.kind == "graph":
                     return VInt(self.N)
+                if isinstance(x, VEmptyList):
+                    return VInt(0)
+                if isinstance(x, VNodeList):
+                    s.bad["nodelist_misuse"] = OR(s.bad["nodelist_misuse"], x.none)
+                    return VInt(x.n)
                 raise Unsupported("len argument")
             if name in ("min", "max"):
                 if all(isinstance(x, VInt) for x in args) and len(args) == 2:
@@ -1045,6 +1156,38 @@ class Encoder:
             args = [ev(x) for x in a[3]]
             kws = {k: ev(v) for k, v in a[4].items()}
             o = self._read(s, tid, obj[1]) if obj[0] == "objvar" else ev(obj)
+            if isinstance(o, (VEmptyList, VNodeList)) and meth in ("extend", "clear", "append") and obj[0] == "objvar":
+                it = args[0] if args else None
+                if meth == "append" and isinstance(it, VThread) and isinstance(o, VEmptyList):
+                    o = VRef("threadlist", "workers")
+                    self._set(s, self.vname(tid, obj[1]), o)
+                    return self.method(s, tid, ins, o, meth, args, kws, g, d)
+                self._race(s, tid, ins, g)
+                cur = o if isinstance(o, VNodeList) else VNodeList(False, 0)
+                misuse = cur.none  # a method call on None raises AttributeError: outside the model
+                if meth == "clear":
+                    cur = VNodeList(False, 0)
+                elif meth == "append":
+                    if not isinstance(it, VNode):
+                        raise Unsupported(f"append of a {type(it).__name__} to a node list")
+                    cur, ovf = cur.appended(it.v)
+                    misuse = OR(misuse, ovf, it.v == self.DONE)
+                else:
+                    if isinstance(it, VIter) and it.kind == "succ":
+                        for j in range(self.N):
+                            cur, ovf = cur.appended(bv(j), OR(*[AND(it.node == i, self.adj(i, j)) for i in range(self.N)]))
+                            misuse = OR(misuse, ovf)
+                    elif isinstance(it, VNodeList):
+                        misuse = OR(misuse, it.none)
+                        for k, e in enumerate(it.elems()):
+                            cur, ovf = cur.appended(e, z3.ULT(bv(k), it.n))
+                            misuse = OR(misuse, ovf)
+                    elif not isinstance(it, VEmptyList):
+                        raise Unsupported(f"extend with a {type(it).__name__}")
+                s.bad["nodelist_misuse"] = OR(s.bad["nodelist_misuse"], misuse)
+                self.saw_nodelist = True
+                self._set(s, self.vname(tid, obj[1]), VNodeList(False, cur.n, cur.elems()))
+                return VNone()
             return self.method(s, tid, ins, o, meth, args, kws, g, d)
         if a[0] == "callvar":
             raise Unsupported(f"call of variable {a[1]} (line {ins.line})")
@@ -1070,9 +1213,19 @@ class Encoder:
                 sc["unf"] = sc["unf"] + 1
                 s.bad["overflow"] = OR(s.bad["overflow"], sc["unf"] == 0)
                 return VNone()
-            if meth == "get":
+            if meth in ("get", "get_nowait"):
                 ch = self.cur_choice
                 anyq = OR(sc["qdone"] != 0, *[sc["q"][i] != 0 for i in range(N)])
+                if self._timed_get(ins.a) and not d:
+                    # the wait timed out: only while the queue is empty (time itself is not modelled: "empty right now" is enough for
+                    # a timeout to be possible), at most MAX_TIMEOUTS times per run
+                    if tid == "main":
+                        raise Unsupported("timed queue.get on the coordinator")
+                    g.append(NOT(anyq))
+                    g.append(z3.ULT(sc["timeouts"], bv(MAX_TIMEOUTS)))
+                    sc["timeouts"] = sc["timeouts"] + 1
+                    s.vars[self._excreg(tid)] = VExc(True, K_EXC, bv(ORIGIN_QUEUE_EMPTY))
+                    return VNone()
                 g.append(anyq)
                 ok_node = OR(*[AND(ch == i, sc["q"][i] != 0) for i in range(N)])
                 ok_done = AND(ch == self.DONE, sc["qdone"] != 0)
@@ -1094,6 +1247,8 @@ class Encoder:
         if isinstance(o, VRef) and o.kind == "glob" and o.name == "threading":
             if meth == "Lock":
                 return VRef("lock", f"lock@{ins.label}")
+            if meth in ("current_thread", "main_thread"):
+                return VRef("threadobj", "main" if (tid == "main" or meth == "main_thread") else "worker")
             if meth == "Thread":
                 tgt = kws.get("target")
                 if not (isinstance(tgt, VRef) and tgt.kind == "func"):
@@ -1104,6 +1259,16 @@ class Encoder:
                 return VThread(tidv)
         if isinstance(o, VThread):
             if meth == "start":
+                if self.opts.start_may_fail and d:
+                    g.append(self.cur_choice != 1)
+                if self.opts.start_may_fail and not d:
+                    # the operating system refuses the thread: RuntimeError in the coordinator, the thread never runs.  Whether it does
+                    # is the step's free `choice` (a coordinator step takes nothing from the queue), so both continuations exist
+                    g.append(self.cur_choice == 1)
+                    g.append(NOT(sc["start_failed"]))
+                    sc["start_failed"] = z3.BoolVal(True)
+                    s.vars[self._excreg(tid)] = VExc(True, K_EXC, bv(ORIGIN_THREAD_REFUSED))
+                    return VNone()
                 sc["started_thr"] = [OR(sc["started_thr"][w], o.id == w) for w in range(W)]
                 return VNone()
             if meth == "join":
@@ -1111,6 +1276,8 @@ class Encoder:
                 done = OR(*[AND(o.id == w, OR(sc["pc_w"][w] == e0, sc["pc_w"][w] == e1)) for w in range(W)])
                 g.append(done)
                 return VNone()
+        if isinstance(o, VRef) and o.kind == "threadobj" and meth == "is_alive":
+            return VBool(NOT(self.main_ended(s))) if o.name == "main" else VBool(True)
         if isinstance(o, VRef) and o.kind == "threadlist" and meth == "append":
             t = args[0]
             if not isinstance(t, VThread):
@@ -1327,5 +1494,5 @@ BAD_BITS = [
     "c07_running_after_return", "c07_cycle_not_reported", "c07_cycle_ran_something", "c07_deadlock", "c10_inflight_gt_w", "c10_fn_under_lock",
     "c10_too_many_failures", "c10_none_not_exhaustive", "c10_w1_failure_count", "c17_start_after_interrupt", "c17_interrupt_swallowed",
     "c17_interrupt_masked", "fn_on_sentinel", "lock_misuse", "overflow", "task_done_underflow", "too_many_threads", "reduction_assumption",
-    "c15_bad", "c16_bad",
+    "c15_bad", "c16_bad", "nodelist_misuse",
 ]
